@@ -1,2 +1,3 @@
 pub mod builder;
+pub mod builder2;
 pub mod c08;
